@@ -679,6 +679,13 @@ def euler_traj(eng, system, steps, us):
 
 def eval_grid_vs_graph(eng, desc, kinetics):
     """-> (ok, detail)"""
+    try:
+        return _eval_grid_vs_graph(eng, desc, kinetics)
+    except Exception as e:  # noqa
+        return False, {"what": "raises %s: %s" % (type(e).__name__, str(e)[:200])}
+
+
+def _eval_grid_vs_graph(eng, desc, kinetics):
     import numpy as np
     from strengths import UnitsSystem
     from strengths.kinetics import compute_dstatedt
